@@ -1,5 +1,23 @@
 package main
 
-import "github.com/bitcoin-sv/block-headers-service/verifharness/checks/c07"
+import (
+	"encoding/json"
+	"fmt"
+	"os"
 
-func init() { register("C07", c07.Spec) }
+	"github.com/bitcoin-sv/block-headers-service/verifharness/checks/c07"
+	"github.com/bitcoin-sv/block-headers-service/verifharness/ev"
+)
+
+func init() {
+	register("C07", c07.Spec)
+	// __c07gen <case index> : print the scenario the current VERIF_SEED / VERIF_TIER generates (debug aid)
+	subcommands["__c07gen"] = func(args []string) {
+		var i int
+		fmt.Sscan(args[0], &i)
+		r := ev.NewDetached("C07")
+		b, _ := json.Marshal(c07.Generate(r.Rand(fmt.Sprintf("s/%d", i)), i, r.Thorough()))
+		fmt.Println(string(b))
+		os.Exit(0)
+	}
+}
